@@ -35,11 +35,11 @@ def valid_beat_duration(duration):
         return True
     else:
         r = duration
-        while r != 1:
-            if r % 2 == 1:
+        while r > 1:
+            if r % 2 != 0:
                 return False
             r /= 2
-        return True
+        return r == 1
 
 
 def is_valid(meter):
